@@ -459,13 +459,148 @@ def cmp_result(step, R, c, want, out, involved=()):
                     "pts": list(involved) + [want]})
 
 
+class Tracer:
+    """Records every TOP-LEVEL call of a point method of the real classes made while a search case runs, as
+    (wire line for the model driver, the implementation's answer in the driver's format, raw part only).
+    Used to make the K1 predicate precise (`k1_confirmed`): a failing case is the known finding K1 only if the MODEL —
+    which reproduces K1 faithfully — gives the same answers as the implementation on those very operations."""
+
+    PJ = [("__add__", "pj_add"), ("__neg__", "pt_neg"), ("double", "pt_double"), ("__eq__", "pt_eq"), ("__mul__", "pt_mul"),
+          ("mul_add", "pj_mul_add"), ("to_affine", "pj_to_affine"), ("scale", "pj_scale"), ("x", "pj_x"), ("y", "pj_y"),
+          ("_add", "k_add"), ("_double", "k_double")]
+    PT = [("__add__", "pt_add"), ("__neg__", "pt_neg"), ("double", "pt_double"), ("__eq__", "pt_eq"), ("__mul__", "pt_mul")]
+
+    def __init__(self, cur):
+        self.cur = "%d %d %d" % tuple(cur[:3])
+        self.records, self.depth, self.saved = [], 0, []
+
+    def _tok(self, v):
+        E = ec()
+        if isinstance(v, (E.PointJacobi, E.Point)):
+            return raw(v)
+        if isinstance(v, bool):
+            return "1" if v else "0"
+        return str(int(v))
+
+    def _answer(self, out):
+        E = ec()
+        if out is NotImplemented:
+            return None
+        if isinstance(out, bool):
+            return "ok " + str(out)
+        if isinstance(out, (E.PointJacobi, E.Point)):
+            return "ok " + raw(out)
+        if isinstance(out, tuple):
+            return "ok " + " ".join(str(int(v)) for v in out)
+        return "ok " + str(int(out))
+
+    def _wrap(self, cls, name, op):
+        from lib import common
+        orig = cls.__dict__[name]
+        tr = self
+
+        def wrapper(obj, *args):
+            if tr.depth:
+                return orig(obj, *args)
+            try:
+                if op == "k_add":
+                    text = "%s %s %s" % (op, tr.cur, " ".join(str(int(v)) for v in args[:6]))
+                elif op == "k_double":
+                    text = "%s %s %s" % (op, tr.cur, " ".join(str(int(v)) for v in args[:3]))
+                else:
+                    text = "%s %s %s" % (op, tr.cur, " ".join([tr._tok(obj)] + [tr._tok(v) for v in args]))
+            except Exception:  # noqa  (an operand that has no wire form: not traceable)
+                text = None
+            tr.depth += 1
+            try:
+                out = orig(obj, *args)
+                ans = tr._answer(out) if text else None
+            except BaseException as e:  # noqa
+                if text:
+                    tr.records.append((text, "err " + common.errname(e)))
+                raise
+            finally:
+                tr.depth -= 1
+            if text and ans is not None:
+                tr.records.append((text, ans))
+            return out
+        self.saved.append((cls, name, orig))
+        setattr(cls, name, wrapper)
+
+    def __enter__(self):
+        E = ec()
+        for name, op in self.PJ:
+            self._wrap(E.PointJacobi, name, op)
+        for name, op in self.PT:
+            self._wrap(E.Point, name, op)
+        return self
+
+    def __exit__(self, *exc):
+        for cls, name, orig in reversed(self.saved):
+            setattr(cls, name, orig)
+        self.saved = []
+        return False
+
+
+def model_answers(lines):
+    """answers of the model driver for wire lines (raw part of point answers only)"""
+    import subprocess
+    from lib import common
+    lines = list(lines)
+    if not lines:
+        return {}
+    p = subprocess.run([common.DRIVER], input="\n".join(lines) + "\n", capture_output=True, text=True, timeout=3600)
+    out = p.stdout.split("\n")
+    if p.returncode != 0 or len(out) < len(lines):
+        raise RuntimeError("model driver failed: " + p.stderr[-500:])
+    return {l: o.strip().split(" | ")[0] for l, o in zip(lines, out)}
+
+
+def k1_confirmed(check, cases):
+    """The precise K1 predicate, part (b).  `cases` have already passed part (a) (`k1_matches`: the curve has a point of
+    order 2 and an operand / intermediate / expected result has y = 0).  Each case is re-run on the real code with a
+    `Tracer`; it IS the known finding K1 only if the model (Model/Curve.lean reproduces K1 faithfully) answers every
+    traced operation exactly as the implementation did.  Returns, per case, the list of (line, impl, model) that differ
+    (empty list = K1; non-empty = a NEW violation with that input, whatever its y coordinates).
+    Reusable by other properties (C19): pass any `check(case)` whose case has a "curve": [p, a, b] entry."""
+    traces = []
+    for case in cases:
+        with Tracer(case["curve"]) as tr:
+            try:
+                check(case)
+            except Exception:  # noqa
+                pass
+        traces.append(tr.records)
+    ans = model_answers(sorted({l for t in traces for (l, _) in t}))
+    return [[(l, a, ans[l]) for (l, a) in t if ans[l] != a and _value_of(l, ans[l]) != _value_of(l, a)] for t in traces]
+
+
+def _value_of(line, answer):
+    """the VALUE of an answer: a `PointJacobi` answer `ok J,X,Y,Z,ord,gen` is compared by its affine value
+    (X/Z^2, Y/Z^3 mod p, computed here with Python's pow) together with order and generator flag, because "the model
+    gives the same (wrong) answer" is about what is observable, not about which scaling was reached; everything else
+    (INFINITY, legacy points, booleans, integers, exceptions, kernel triples) is compared literally."""
+    if not answer.startswith("ok J,"):
+        return answer
+    try:
+        p = int(line.split(" ")[1])
+        f = answer[3:].split(",")
+        X, Y, Z = int(f[1]), int(f[2]), int(f[3])
+        zi = pow(Z, -1, p)
+        return "ok J~%d,%d,%s,%s" % (X * zi * zi % p, Y * zi * zi * zi % p, f[4], f[5])
+    except Exception:  # noqa  (Z not invertible, p <= 0 ...: compare literally)
+        return answer
+
+
 class Searcher:
-    MAX_GENUINE, MAX_K1 = 3, 20
+    MAX_GENUINE, MAX_K1, FLUSH = 3, 20, 4000
 
     def __init__(self, ctx, check):
-        """`check(case)` -> None | {"observed", "expected", "k1": bool, "all_failures"}"""
+        """`check(case)` -> None | {"observed", "expected", "k1": bool, "all_failures"}; `k1` is part (a) of the K1
+        predicate, part (b) (`k1_confirmed`) is applied here, in batches"""
         self.ctx, self.check, self.n, self.genuine, self.k1 = ctx, check, 0, 0, 0
         self.seen, self.nontrivial = set(), 0
+        self.pending = []
 
     def case(self, case, cls):
         self.n += 1
@@ -481,18 +616,38 @@ class Searcher:
         rec = {"input": case, "observed": bad["observed"], "expected": bad["expected"], "class": cls,
                "all_failures": bad["all_failures"]}
         if bad["k1"]:
-            self.k1 += 1
-            self.ctx.hist("search.K1", cls)
-            if self.k1 <= self.MAX_K1:
-                rec["known"] = "K1"
-                self.ctx.violation(rec)
+            self.pending.append((rec, cls))
+            if len(self.pending) >= self.FLUSH:
+                self.flush()
             return False
+        self._genuine(rec, cls)
+        return False
+
+    def _genuine(self, rec, cls):
         self.genuine += 1
         self.ctx.hist("search.violations", cls)
         self.ctx.violation(rec)
         if self.genuine >= self.MAX_GENUINE:
             raise Stop()
-        return False
+
+    def flush(self):
+        """classify the K1 candidates collected so far (model consulted once per batch)"""
+        pend, self.pending = self.pending, []
+        if not pend:
+            return
+        diffs = k1_confirmed(self.check, [rec["input"] for rec, _ in pend])
+        for (rec, cls), d in zip(pend, diffs):
+            if d:
+                rec["model_disagrees"] = [{"line": l, "impl": a, "model": m} for (l, a, m) in d[:4]]
+                rec["note"] = ("y = 0 takes part on a curve with 2-torsion, but the model (which reproduces K1) answers "
+                               "differently from the implementation on the listed operation: not the known finding K1")
+                self._genuine(rec, cls)
+            else:
+                self.k1 += 1
+                self.ctx.hist("search.K1", cls)
+                if self.k1 <= self.MAX_K1:
+                    rec["known"] = "K1"
+                    self.ctx.violation(rec)
 
 
 def mkcase(cur, check, args, name=None):
